@@ -545,6 +545,25 @@ def headers(R):
     R.ob('C10.headers', 'undecodable header bytes are not dropped', not bad,
          'Response decodes header bytes with errors="ignore": bytes >= 0x80 inserted into a header value vanish, so a '
          'wrong Sec-WebSocket-Accept can compare equal', func=f, node=(bad[0] if bad else None), construct='header decode errors=ignore')
+    # the status line is the first CRLF line of the header block exactly as received: transforming the block before it is
+    # split into lines (unfolding continuation lines with a regular expression ...) can glue other text onto the status
+    # line, e.g. a status code that only appears on a continuation line
+    gi = R.cfg(q)
+    rdi = ReachingDefs(gi)
+    hp = [p_ for p_ in f.params if p_ != 'self'][0]
+    splits = [(n, c) for n in gi.live_nodes() for c in n.calls if isinstance(c.func, ast.Attribute) and c.func.attr == 'split'
+              and c.args and isinstance(c.args[0], ast.Constant) and c.args[0].value == b'\r\n']
+    need(len(splits) >= 1, 'Response.__init__: split of the header block into lines not found')
+    for (n, c) in splits:
+        recv_ = c.func.value
+        o, on = rdi.origin(n, recv_) if isinstance(recv_, ast.Name) else (recv_, n)
+        while isinstance(o, ast.Call) and isinstance(o.func, ast.Name) and o.func.id in ('bytes', 'bytearray') and len(o.args) == 1:
+            o = o.args[0]
+        okr = isinstance(o, ast.Name) and o.id == hp and is_param(rdi, on, o)
+        R.ob('C10.headers', 'lines are cut from the header block as received', okr,
+             'the header block is transformed (%s) before it is split into lines: text from a continuation line can end up '
+             'on the status line (a reply whose status line has no 101 is accepted)' % U(c.func.value), func=f, node=c,
+             construct='header block transformed before line split')
     # a folded value is trimmed as a whole: pieces are joined (with the single blank that folding inserts) and only
     # then stripped - trimming pieces alone leaves that blank in front when the first piece is empty
     vals = []
